@@ -421,6 +421,51 @@ def init_tasks_of_the_task_only(chk: Check):
                     f"`{src(x)[:70]}` reads the init tasks of every definition of the parameter file: the job would also execute the init tasks its upstream tasks were submitted with", loc)
 
 
+def record_built_per_call(chk: Check):
+    """What is written depends on the serialization context (save directory, data files) and on state that can still change after sealing (the
+    producing task link): the record of a configuration is built by the call that writes it, never taken from a cache on the object"""
+    tree = chk.tree
+    f = tree.func("core.objects", "ConfigInformation.__get_objects__")
+    g = CFG(f.node)
+    rd = ReachingDefs(g)
+    n = 0
+    for nd, c in g.call_nodes(lambda c: src(c.func) == "objects.append" and len(c.args) == 1):
+        n += 1
+        a = c.args[0]
+        ok = isinstance(a, ast.Dict)
+        if isinstance(a, ast.Name):
+            ds = rd.defs_at(a.id, nd)
+            ok = bool(ds) and all(d.value is not None and isinstance(d.value, ast.Dict) for d in ds)
+        chk.require(ok, chk.fkey(f, "record built by this call"), f"`{src(c)}` appends a record that was not built by this call (a cached definition): a later save to another directory keeps the "
+                    "data paths / task link of the first serialization", chk.loc(f.module, c))
+    chk.min_instances(n, 1, "records appended by __get_objects__")
+
+
+def records_keyed_by_identity(chk: Check):
+    """Sharing is a matter of object identity: two distinct configurations with the same signature (they may differ by paths and Meta values)
+    are two records.  The record id, the visited set and the references all use id(<object>) -- never an identifier (a signature)"""
+    tree = chk.tree
+    f = tree.func("core.objects", "ConfigInformation.__get_objects__")
+    g = CFG(f.node)
+    rd = ReachingDefs(g)
+    ids = [(k, v) for d in ast.walk(f.node) if isinstance(d, ast.Dict) for k, v in zip(d.keys, d.values) if isinstance(k, ast.Constant) and k.value == "id"]
+    chk.min_instances(len(ids), 1, "`id` entry of the object record")
+    for k, v in ids:
+        nodes = g.nodes_of(v)
+        c = rd.canon(v, nodes[0]) if nodes else src(v)
+        chk.require(c.replace(" ", "") == "id(self.pyobject)", chk.fkey(f, "record id is the object identity"), f"the record id is `{c}`: two distinct configurations that hash alike would become one object when loaded", chk.loc(f.module, v))
+    vis = [n for n in g.live if n.kind == "test" and "context.serialized" in src(n.ast)]
+    for n in vis:
+        c = rd.canon(n.ast, n)
+        chk.require("id(self.pyobject)" in c, chk.fkey(f, "visited set keyed by identity"), f"the already-serialized test is `{c}`: it must be keyed by id(object)", chk.loc(f.module, n.ast))
+    ov = tree.func("core.objects", "ConfigInformation._outputjsonvalue")
+    refs = [(k, v) for d in ast.walk(ov.node) if isinstance(d, ast.Dict) for k, v in zip(d.keys, d.values) if isinstance(k, ast.Constant) and k.value == "value"
+            and any(isinstance(k2, ast.Constant) and k2.value == "type" and isinstance(v2, ast.Constant) and v2.value == "python" for k2, v2 in zip(d.keys, d.values))]
+    chk.min_instances(len(refs), 1, "references to object records")
+    for k, v in refs:
+        chk.require(isinstance(v, ast.Call) and dotted(v.func) == "id", chk.fkey(ov, "references use the object identity"), f"a reference to a configuration is written as `{src(v)}`", chk.loc(ov.module, v))
+
+
 def fresh_accumulators(chk: Check):
     """The list of definitions of one saved object must be its own: an accumulator parameter with a mutable default (evaluated once, shared by all
     calls) must be supplied by every caller, or later saves carry the definitions of earlier ones (duplicate ids at load time)"""
@@ -520,6 +565,8 @@ def module_files_loaded_once(chk: Check):
 
 def r5_sharing(chk: Check):
     fresh_accumulators(chk)
+    record_built_per_call(chk)
+    records_keyed_by_identity(chk)
     module_files_loaded_once(chk)
     tree = chk.tree
     f = tree.func("core.objects", "ConfigInformation.__get_objects__")
